@@ -2,7 +2,7 @@
 from props_common import COMMON_NOTE
 
 CONF = dict(
-    families=[('taptree', 48, 1500), ('tapcb', 50, 2000), ('taptweak', 150, 5000)],
+    families=[('taptree', 48, 1500), ('tapcb', 50, 2000), ('taptweak', 150, 5000), ('tapbig', 8, 64), ('tapkeys', 24, 600)],
     compare=None,
     trusted=[
         'modelled by hand: TapElementsLeaf.TapHash, tapElementsBranchHash, AssembleTaprootScriptTree, leafDescendants, ControlBlock.RootHash, ToControlBlock, VerifyTaprootLeafCommitment, TweakTaprootPrivKey, ComputeTaprootOutputKey (taproot/taproot.go), txscript.ControlBlock.ToBytes / ParseControlBlock (btcd, called by the wrapper), the InputTapLeafScript key pair of psetv2/input.go',
@@ -16,7 +16,7 @@ CONF = dict(
         'abelian group: mulG is a homomorphism from Z/n, lift_x(x(P)) is the even-y point of {P, -P}, negation keeps x (tweaked_priv_matches_output_key)',
         'not proved: a control block whose internal-key bytes are altered fails (needs a random-oracle argument, not injectivity); searched by S only',
     ],
-    explanation='theorems: the ordered branch hash is commutative (proved from bytes.Compare); for every leaf list with distinct leaf hashes AssembleTaprootScriptTree does not panic, terminates, commits to exactly the leaves and the proof accumulated for every leaf recomputes the root (induction over the pairing pass and the FIFO merge queue, through the hash-keyed index); ToBytes/ParseControlBlock and the PSET key pair round-trip; every control block verifies against the one output key with the right parity; other script / leaf version / single altered node / flipped parity / other output key fail under injective hashes; (tweaked d)*G = output key for both parities of d*G; tweaking leaves the caller\'s key unchanged (the model follows fix fefe606: the scalar is copied before Negate/Add; on the pre-fix tree K and S report it). K: root, every control block, parse results, root hashes and verdicts, tweaked keys and the caller\'s key afterwards, bit for bit. S: every clause on the implementation, incl. all positions of single-byte corruptions, p2tr payment and PSET round trip.',
+    explanation='theorems: the ordered branch hash is commutative (proved from bytes.Compare); for every leaf list with distinct leaf hashes AssembleTaprootScriptTree does not panic, terminates, commits to exactly the leaves and the proof accumulated for every leaf recomputes the root (induction over the pairing pass and the FIFO merge queue, through the hash-keyed index); ToBytes/ParseControlBlock and the PSET key pair round-trip; every control block verifies against the one output key with the right parity; other script / leaf version / single altered node / flipped parity / other output key fail under injective hashes; (tweaked d)*G = output key for both parities of d*G; tweaking leaves the caller\'s key unchanged (the model follows fix fefe606: the scalar is copied before Negate/Add; on the pre-fix tree K and S report it). K: root, every control block, parse results, root hashes and verdicts, tweaked keys and the caller\'s key afterwards, bit for bit. K also: trees with a script around the compact-size boundaries (0xfc/0xfd, 0xffff/0x10000/0x10001, 70000 bytes) and histories of ONE assembled tree used with 2..4 internal keys of both output-key parities (every leaf, every key, several orders). S: every clause on the implementation, incl. all positions of single-byte corruptions, p2tr payment and PSET round trip.',
 )
 
 TEXT = dict(
